@@ -145,6 +145,36 @@ theorem readLine_last (chunk : Nat) (_h : 2 ≤ chunk) (rest : Bytes) (e : Bool)
   rw [readLineLoop_eq, rlSpec_nolf _ _ _ hrest]
   simp
 
+/-- **readLine_delim**: `readLine(char newline)` returns the bytes before the next delimiter and leaves the
+    stream behind it (no CR handling: the delimiter is the caller's); without a delimiter it returns the rest
+    and sets the end-of-file indicator -/
+theorem readLine_delim (delim : UInt8) (pre post rest : Bytes) (hpre : ∀ b ∈ pre, b ≠ delim) (hrest : ∀ b ∈ rest, b ≠ delim) :
+    readLineDelim delim ⟨pre ++ delim :: post, false⟩ = (pre, ⟨post, false⟩) ∧
+    readLineDelim delim ⟨rest, false⟩ = (rest, ⟨[], true⟩) := by
+  have gen1 : ∀ (pre racc : Bytes), (∀ b ∈ pre, b ≠ delim) →
+      readDelimLoop delim (pre ++ delim :: post) false racc = (racc.reverse ++ pre, ⟨post, false⟩) := by
+    intro pre
+    induction pre with
+    | nil => intro racc _; simp [readDelimLoop]
+    | cons c t ih =>
+      intro racc h
+      have hc : c ≠ delim := h c (by simp)
+      simp only [List.cons_append, readDelimLoop, Bool.false_or, beq_iff_eq, hc, if_false]
+      rw [ih (c :: racc) (fun b hb => h b (by simp [hb]))]
+      simp
+  have gen2 : ∀ (rest racc : Bytes), (∀ b ∈ rest, b ≠ delim) →
+      readDelimLoop delim rest false racc = (racc.reverse ++ rest, ⟨[], true⟩) := by
+    intro rest
+    induction rest with
+    | nil => intro racc _; simp [readDelimLoop]
+    | cons c t ih =>
+      intro racc h
+      have hc : c ≠ delim := h c (by simp)
+      simp only [readDelimLoop, Bool.false_or, beq_iff_eq, hc, if_false]
+      rw [ih (c :: racc) (fun b hb => h b (by simp [hb]))]
+      simp
+  exact ⟨by simpa [readLineDelim] using gen1 pre [] hpre, by simpa [readLineDelim] using gen2 rest [] hrest⟩
+
 -- hypotheses are satisfiable / the statements are not vacuous: a 3-byte chunk on "ab\r\ncd"
 example : readLine 3 ⟨[97, 98, 13, 10, 99, 100], false⟩ = (([97, 98], true), ⟨[99, 100], false⟩) := by
   have := readLine_lf 3 (by decide) [97, 98, 13] [99, 100] false (by decide)
@@ -212,6 +242,15 @@ namespace Spec
 /-- the text contains CR immediately followed by LF -/
 def HasCRLF (cs : List Char) : Prop := ∃ pre post, cs = pre ++ Char.ofNat 13 :: Char.ofNat 10 :: post
 
+/-- every CR that is immediately followed by LF removed -/
+def foldCRLF : List Char → List Char
+  | [] => []
+  | [a] => [a]
+  | a :: b :: t => if a.toNat = 13 ∧ b.toNat = 10 then foldCRLF (b :: t) else a :: foldCRLF (b :: t)
+
+example : foldCRLF [Char.ofNat 97, Char.ofNat 13, Char.ofNat 13, Char.ofNat 10, Char.ofNat 10, Char.ofNat 13] =
+    [Char.ofNat 97, Char.ofNat 13, Char.ofNat 10, Char.ofNat 10, Char.ofNat 13] := by decide
+
 /-- a UTF-16 file: byte-order mark, then every unit low byte first (LE) or high byte first (BE) -/
 def utf16leFile (cs : List Char) : Bytes := [0xFF, 0xFE] ++ le16 (Std.utf16 cs)
 def utf16beFile (cs : List Char) : Bytes := [0xFE, 0xFF] ++ be16 (Std.utf16 cs)
@@ -231,44 +270,109 @@ theorem utf16_lt (cs : List Char) : ∀ u ∈ Std.utf16 cs, u < 65536 := by
   · simp only [List.mem_cons, List.not_mem_nil, or_false] at hu
     rcases hu with rfl | rfl <;> omega
 
-theorem noCRLF16_utf16 (cs : List Char) (p : Nat)
-    (hp : p = 13 → ∀ c t, cs = c :: t → c.toNat ≠ 10) (h : ¬ Spec.HasCRLF cs) :
-    noCRLF16 p (Std.utf16 cs) = true := by
-  induction cs generalizing p with
-  | nil => simp [Std.utf16, noCRLF16]
-  | cons c t ih =>
-    have ht : ¬ Spec.HasCRLF t := by
-      rintro ⟨pre, post, rfl⟩
-      exact h ⟨c :: pre, post, rfl⟩
-    simp only [Std.utf16, List.flatMap_cons] at *
-    unfold Std.utf16Char
-    split
-    · rename_i hb
-      simp only [List.singleton_append, noCRLF16, Bool.and_eq_true, Bool.not_eq_true', Bool.and_eq_false_iff,
-        beq_eq_false_iff_ne]
-      refine ⟨?_, ?_⟩
-      · by_cases h13 : p = 13
-        · right; exact hp h13 c t rfl
-        · left; exact h13
-      · apply ih c.toNat _ ht
-        intro h13 c2 t2 e2 h10
-        subst e2
+/-- folding CR LF on the UTF-16 units is folding it on the scalar values (surrogates are neither CR nor LF) -/
+theorem foldU_utf16 (cs : List Char) : foldU (Std.utf16 cs) = Std.utf16 (Spec.foldCRLF cs) := by
+  induction cs with
+  | nil => simp [Std.utf16, foldU, Spec.foldCRLF]
+  | cons a l ih =>
+    have hv : a.toNat < 0x110000 := by
+      have := a.valid
+      simp only [Char.toNat, UInt32.isValidChar, Nat.isValidChar] at *
+      omega
+    cases l with
+    | nil =>
+      simp only [Std.utf16, List.flatMap_cons, List.flatMap_nil, List.append_nil, Spec.foldCRLF]
+      unfold Std.utf16Char
+      split
+      · simp [foldU]
+      · rw [foldU_cons_ne _ _ (by omega), foldU_cons_ne _ _ (by omega)]; simp [foldU]
+    | cons b t =>
+      have hb : b.toNat < 0x110000 := by
+        have := b.valid
+        simp only [Char.toNat, UInt32.isValidChar, Nat.isValidChar] at *
+        omega
+      -- the first unit of the rest is LF exactly when `b` is LF
+      have hhead : ∃ h r, Std.utf16 (b :: t) = h :: r ∧ (h = 10 ↔ b.toNat = 10) := by
+        simp only [Std.utf16, List.flatMap_cons]
+        unfold Std.utf16Char
+        split
+        · exact ⟨b.toNat, _, rfl, Iff.rfl⟩
+        · exact ⟨_, _, rfl, by omega⟩
+      obtain ⟨h, r, hr, hiff⟩ := hhead
+      have e1 : Std.utf16 (a :: b :: t) = Std.utf16Char a.toNat ++ Std.utf16 (b :: t) := by
+        simp [Std.utf16]
+      rw [e1, Spec.foldCRLF]
+      by_cases hc : a.toNat = 13 ∧ b.toNat = 10
+      · rw [if_pos hc, ← ih]
+        have : Std.utf16Char a.toNat = [13] := by unfold Std.utf16Char; rw [hc.1]; simp
+        rw [this, hr]
+        have h10 : h = 10 := hiff.mpr hc.2
+        simp [foldU, h10]
+      · rw [if_neg hc]
+        have e2 : Std.utf16 (a :: Spec.foldCRLF (b :: t)) = Std.utf16Char a.toNat ++ Std.utf16 (Spec.foldCRLF (b :: t)) := by
+          simp [Std.utf16]
+        rw [e2, ← ih]
+        unfold Std.utf16Char
+        split
+        · rw [hr]
+          have : ¬ (a.toNat = 13 ∧ h = 10) := fun ⟨x, y⟩ => hc ⟨x, hiff.mp y⟩
+          simp [foldU, this]
+        · simp only [List.cons_append, List.nil_append]
+          rw [foldU_cons_ne _ _ (by omega), foldU_cons_ne _ _ (by omega)]
+
+theorem foldCRLF_mem (cs : List Char) : ∀ c ∈ Spec.foldCRLF cs, c ∈ cs := by
+  induction cs with
+  | nil => simp [Spec.foldCRLF]
+  | cons a l ih =>
+    cases l with
+    | nil => simp [Spec.foldCRLF]
+    | cons b t =>
+      intro c hc
+      rw [Spec.foldCRLF] at hc
+      split at hc
+      · exact List.mem_cons_of_mem _ (ih c hc)
+      · rcases List.mem_cons.mp hc with rfl | h
+        · simp
+        · exact List.mem_cons_of_mem _ (ih c h)
+
+/-- a text without an adjacent CR LF is left alone by the folding -/
+theorem foldCRLF_id (cs : List Char) (h : ¬ Spec.HasCRLF cs) : Spec.foldCRLF cs = cs := by
+  induction cs with
+  | nil => simp [Spec.foldCRLF]
+  | cons a l ih =>
+    cases l with
+    | nil => simp [Spec.foldCRLF]
+    | cons b t =>
+      have ht : ¬ Spec.HasCRLF (b :: t) := by
+        rintro ⟨pre, post, e⟩
+        exact h ⟨a :: pre, post, by rw [e]; rfl⟩
+      rw [Spec.foldCRLF]
+      have hc : ¬ (a.toNat = 13 ∧ b.toNat = 10) := by
+        rintro ⟨h13, h10⟩
         apply h
-        refine ⟨[], t2, ?_⟩
+        refine ⟨[], t, ?_⟩
         rw [char_eq_of_toNat h13 (by omega), char_eq_of_toNat h10 (by omega)]
         rfl
-    · rename_i hb
-      simp only [List.cons_append, List.nil_append, noCRLF16, Bool.and_eq_true, Bool.not_eq_true',
-        Bool.and_eq_false_iff, beq_eq_false_iff_ne]
-      refine ⟨?_, ?_, ?_⟩
-      · right; omega
-      · left; omega
-      · apply ih _ _ ht
-        intro h13
-        omega
+      rw [if_neg hc, ih ht]
 
-theorem hasCRLF_head (cs : List Char) : (0 : Nat) = 13 → ∀ c t, cs = c :: t → c.toNat ≠ 10 := by
-  intro h; omega
+/-- **text_utf16_fold** (what the code does on every UTF-16 file of scalar values): the text comes back in
+    UTF-8 with each CR LF folded to LF and nothing else changed -/
+theorem text_utf16_fold (cs : List Char) (h0 : Std.NoNul cs) (hlen : (Spec.utf16leFile cs).length < 2147483648) :
+    text (Spec.utf16leFile cs) = some (Std.utf8 (Spec.foldCRLF cs)) ∧
+    text (Spec.utf16beFile cs) = some (Std.utf8 (Spec.foldCRLF cs)) := by
+  have hlt := utf16_lt cs
+  have hle : (le16 (Std.utf16 cs)).length = (be16 (Std.utf16 cs)).length := by
+    simp [le16, be16, List.length_flatMap]
+  have hn : Std.NoNul (Spec.foldCRLF cs) := fun c hc => h0 c (foldCRLF_mem cs c hc)
+  unfold Spec.utf16leFile at hlen
+  simp only [List.length_append, List.length_cons, List.length_nil] at hlen
+  constructor
+  · unfold Spec.utf16leFile
+    rw [text_utf16le_aux _ hlt (by omega), foldU_utf16]
+    exact fromWide_std _ hn
+  · unfold Spec.utf16beFile
+    rw [text_utf16be_aux _ hlt (by omega), foldU_utf16]
+    exact fromWide_std _ hn
 
 /-- the full statement of the property for UTF-16 files: every NUL-free scalar-value sequence behind a
     UTF-16 byte-order mark comes back as its UTF-8 encoding -/
@@ -280,19 +384,8 @@ def text_utf16_full : Prop :=
 theorem text_utf16_partial (cs : List Char) (h0 : Std.NoNul cs) (hcr : ¬ Spec.HasCRLF cs)
     (hlen : (Spec.utf16leFile cs).length < 2147483648) :
     text (Spec.utf16leFile cs) = some (Std.utf8 cs) ∧ text (Spec.utf16beFile cs) = some (Std.utf8 cs) := by
-  have hcr16 := noCRLF16_utf16 cs 0 (hasCRLF_head cs) hcr
-  have hlt := utf16_lt cs
-  have hle : (le16 (Std.utf16 cs)).length = (be16 (Std.utf16 cs)).length := by
-    simp [le16, be16, List.length_flatMap]
-  unfold Spec.utf16leFile at hlen
-  simp only [List.length_append, List.length_cons, List.length_nil] at hlen
-  constructor
-  · unfold Spec.utf16leFile
-    rw [text_utf16le_aux _ hlt hcr16 (by omega)]
-    exact fromWide_std cs h0
-  · unfold Spec.utf16beFile
-    rw [text_utf16be_aux _ hlt hcr16 (by omega)]
-    exact fromWide_std cs h0
+  have := text_utf16_fold cs h0 hlen
+  rwa [foldCRLF_id cs hcr] at this
 
 -- the hypotheses of `text_utf16_partial` are satisfiable: "é😀\r" (CR not followed by LF) as UTF-16LE
 example : text [0xFF, 0xFE, 0xE9, 0x00, 0x3D, 0xD8, 0x00, 0xDE, 0x0D, 0x00] = some [0xC3, 0xA9, 0xF0, 0x9F, 0x98, 0x80, 0x0D] := by decide
